@@ -317,7 +317,7 @@ def fact_order_Program_ReleaseTerminal : List String := [
     "p.restoreTerminalState"]
 
 def fact_order_Program_RestoreTerminal : List String := [
-    "atomic.StoreUint32(&p.ignoreSignals,0)",
+    "[!p.withoutSignals]atomic.StoreUint32(&p.ignoreSignals,0)",
     "p.initTerminal",
     "[p.input != nil]p.initCancelReader(false)",
     "[p.altScreenWasActive]p.renderer.enterAltScreen",
